@@ -31,7 +31,11 @@ SPEC = {
              "jsonlines / NewEncoderAggregator+JSON encoder / NewEncoderAggregator+a SampleEncodeCloser: struct, map, string, int, list "
              "samples with strings holding newlines, quotes, control characters, unicode; queue 1-64, flush interval 0/1 ms-1 s, "
              "recording DataSink, or (1 of 4) the real file data sink (datasink.NewFile = `sink: {type: file}`) on a recording file system, "
-             "half of those with 1-4 Write calls that take 0.5 / 2 ms; Run started up to 2 ms after the reporters, context cancelled 0-3 ms after the last Report returned. "
+             "half of those with 1-4 Write calls that take 0.5 / 2 ms; Run started up to 2 ms after the reporters, context cancelled 0-3 ms after the last Report returned; "
+             "in 1 of 5 encoder histories 1-3 samples that cannot be marshalled stand at drawn places among the ordinary ones: NaN / +Inf / -Inf / a channel / a func "
+             "in a later struct field, behind a pointer (the sample a *struct, or a struct a pointer field points to), as the last element of a list, in a slice or map "
+             "held by a struct field, as a value of a map sample, or the sample itself; marshal-float-with-6-digits on/off; sort_map_keys off (see assumptions) - the aggregator may "
+             "then fail ('sample encode failed'), what it wrote must still be whole lines of reported samples, and a Run that returns nil / only the dropped count must account for everything. "
              "(a') buffer-boundary sweep of the same three encoder aggregators: one sample of a fixed encoded line length (32-4096 bytes "
              "dividing 4 KiB, 2047-8193 around the buffer sizes, arbitrary 32-900; string / map / list) is reported n times for EVERY n of "
              "a window one buffer period + 2 wide (period = 4 KiB or the configured buffer_size / line length, window at the 0th-6th "
@@ -69,6 +73,16 @@ SPEC = {
         "TestEncoderHistory/kind_jsonlines": 0.3, "TestEncoderHistory/kind_encoder": 0.1, "TestEncoderHistory/kind_closer": 0.1,
         "TestEncoderHistory/reporters_ge_2": 0.5, "TestEncoderHistory/several_writes": 0.1, "TestEncoderHistory/escaped_newline": 0.2,
         "TestEncoderHistory/sink_file": 0.15, "TestEncoderHistory/sink_file_slow_write": 0.03,
+        "TestEncoderHistory/unencodable_in_history": 0.1, "TestEncoderHistory/unencodable_inside_sample": 0.1,
+        "TestEncoderHistory/unencodable_among_ordinary": 0.1,
+        "TestEncoderHistory/unencodable_run_failed": 0.08, "TestEncoderHistory/unencodable_run_failed_json_encoder": 0.05,
+        "TestEncoderHistory/unencodable_all_dropped": 0.02, "TestEncoderHistory/unencodable_run_failed_after_lines_written": 0.015,
+        "TestEncoderHistory/unencodable_nan_inf": 0.09, "TestEncoderHistory/unencodable_chan_func": 0.045,
+        "TestEncoderHistory/unencodable_at_struct_field": 0.05, "TestEncoderHistory/unencodable_at_ptr_struct": 0.015,
+        "TestEncoderHistory/unencodable_at_nested_ptr": 0.02, "TestEncoderHistory/unencodable_at_list_last": 0.012,
+        "TestEncoderHistory/unencodable_at_slice_field": 0.01, "TestEncoderHistory/unencodable_at_map_value": 0.006,
+        "TestEncoderHistory/unencodable_at_map_field": 0.01, "TestEncoderHistory/unencodable_float_6_digits": 0.05,
+        "TestEncoderHistory/unencodable_sink_file": 0.025,
         "TestEncoderFileSink/shape_slow_moments": 0.3, "TestEncoderFileSink/shape_big_bursts": 0.17,
         "TestEncoderFileSink/slow_write_reached": 0.39, "TestEncoderFileSink/write_after_slow_write": 0.32,
         "TestEncoderFileSink/write_slower_than_flush_interval": 0.17, "TestEncoderFileSink/chunk_larger_than_buffer": 0.2,
@@ -96,7 +110,10 @@ SPEC = {
                  "lines must equal the multiset of reports (a discarded shoot = tag `discarded`, id 0, net code 777, the other fields 0); "
                  "encoder aggregators: each line one JSON value equal (after decoding, numbers "
                  "kept verbatim) to a reported sample as encoded by encoding/json, lines + SomeSamplesDropped.Dropped (errors.As on the "
-                 "Run error) = reports, error nil iff no drop; the destination opened once, closed exactly once, no write after close, "
+                 "Run error) = reports, error nil iff no drop (a history that holds samples which cannot be marshalled may instead end with another error: then "
+                 "every line must still be one JSON value equal to a reported ordinary sample, none more often than reported, lines + counted drops < reports; "
+                 "when such a history ends with nil / the dropped count alone the full law applies, i.e. every unencodable sample is among the counted drops); "
+                 "the destination opened once, closed exactly once, no write after close, "
                  "last line complete; with the real file sink also: the file holds exactly the bytes handed to its Write calls (copied when "
                  "each call began). Engine: completed-before-end <= lines <= started. Subprocess: reports completed before the signal "
                  "<= lines <= reports started, per instance the lines are exactly reports 1..m (no gap, no duplicate)."),
@@ -110,6 +127,11 @@ SPEC = {
         "interval_event, size_out, size_in, net_code, proto_code (pandora's docs only say phout is compatible with Yandex.Tank); "
         "interval_event has no setter and is expected to be 0",
         "JSON equality is judged against encoding/json's encoding of the same Go value (struct/map/string/int/list, no floats)",
+        "a sample that cannot be marshalled (NaN / Inf float, channel, func) may make the encoder aggregator's Run end with an error instead of being "
+        "written or counted as dropped (the run fails loudly); nothing is demanded of how many of the samples reported before it are in the output then, "
+        "only that what is there is well-formed and was reported. Such samples are generated with sort_map_keys off only: with it on (or with a json.Marshaler "
+        "inside a sample) jsoniter passes a begun value to the encoder's bufio.Writer, which jsonEncoder.Flush still flushes after the failure - the unchanged "
+        "code ends the output with an unterminated fragment there (reported as a possible finding, not asserted)",
         "the side-file counters of the verif gun (O_APPEND, one byte per event) bracket the number of completed reports",
         "a discarded-shoot sample carries nothing but what docs/eng/best_practices/discard-overflow.md names - the tag `discarded` and "
         "net error 777; id and the other nine fields are 0 (the instance reports it untouched)",
